@@ -20,9 +20,12 @@ RMul(a, b) == LET g1 == Gcd(Abs(a[1]), b[2])  g2 == Gcd(Abs(b[1]), a[2])
               IN Norm(<<(a[1] \div p) * (b[1] \div q), (a[2] \div q) * (b[2] \div p)>>)
 RInv(a) == Norm(<<a[2], a[1]>>)
 RDiv(a, b) == RMul(a, RInv(b))
-RLt(a, b) == a[1] * b[2] < b[1] * a[2]
-RLe(a, b) == a[1] * b[2] <= b[1] * a[2]
-REq(a, b) == a[1] * b[2] = b[1] * a[2]
+(* comparisons: integer parts first, then the fractional remainders -- keeps the cross products small *)
+Fl(a) == a[1] \div a[2]
+Rem(a) == a[1] - Fl(a) * a[2]
+RLt(a, b) == IF Fl(a) # Fl(b) THEN Fl(a) < Fl(b) ELSE Rem(a) * b[2] < Rem(b) * a[2]
+REq(a, b) == Norm(a) = Norm(b)
+RLe(a, b) == RLt(a, b) \/ REq(a, b)
 RAbs(a) == <<Abs(a[1]), a[2]>>
 RMin(a, b) == IF RLt(b, a) THEN b ELSE a
 RMax(a, b) == IF RLt(a, b) THEN b ELSE a
